@@ -1,0 +1,16 @@
+//go:build verif
+
+package keeper
+
+import "github.com/bianjieai/tibc-go/modules/tibc/apps/mt_transfer/types"
+
+// TokenKeeperWrapper lets a verification harness built with the "verif" tag decorate the token keeper the
+// transfer keeper talks to (fault injection at every token-module call). Nil = no decoration.
+var TokenKeeperWrapper func(types.MtKeeper) types.MtKeeper
+
+func wrapTokenKeeper(k types.MtKeeper) types.MtKeeper {
+	if TokenKeeperWrapper != nil {
+		return TokenKeeperWrapper(k)
+	}
+	return k
+}
